@@ -77,6 +77,8 @@ def handleEc : List String → Option String
           pure (out (xDBLMUL bits k l (pt (p := p) a b c d) (pt e f g h) (pt i j k' l') (crv m n o q)) [])
       | "ec.dblmulb", [a, b, c, d, e, f, g, h, i, j, k', l', m, n, o, q, k, l, ff] =>
           pure (out (xDBLMULgen bits (some (ff + 2 + (bits - tpe))) k l (pt (p := p) a b c d) (pt e f g h) (pt i j k' l') (crv m n o q)) [])
+      | "ec.biscalarb", [a, b, c, d, e, f, g, h, i, j, k', l', m, n, o, q, k, l, ff] =>
+          pure (out (biscalarMulBounded bits tpe ff k l (pt (p := p) a b c d) (pt e f g h) (pt i j k' l') (crv m n o q)) [])
       | "ec.ladder3pt", [a, b, c, d, e, f, g, h, i, j, k', l', m, n, o, q, s] =>
           pure (out (ladder3pt bits s (pt (p := p) a b c d) (pt e f g h) (pt i j k' l') (ec_curve_normalize_A24 (crv m n o q))) [])
       | "ec.dbliter", [n, a, b, c, d, e, f, g, h] =>
